@@ -30,10 +30,6 @@ Definition links_typedb (g : graph) (c : compiled) : bool :=
 Definition degrees_fitb (c : compiled) : bool :=
   forallb (fun r => Z.of_nat (length (cr_out r)) <=? 2 ^ 32) (c_rts c).
 
-Definition side_conditions (d : desc) : res (list bool) :=
-  do g <- build d; do c <- compile d g;
-  Ok [names_sepb g Req; names_sepb g Rsp; negb (d_nw d) || names_sepb g Wide; single_attachb g c; links_typedb g c; degrees_fitb c].
-
 (* ---------------------------------------------------------------- tree certificate (C09 for trees) *)
 (* a depth for every unit; the certificate is CHECKED (tree_certb), how it was computed does not matter *)
 Definition dep_of (dp : list (string * Z)) (u : string) : Z :=
@@ -104,3 +100,16 @@ Definition tree_conditions (sp : oracle) (d : desc) : res (list bool) :=
         names_sepb g Req; names_sepb g Rsp;
         single_attachb g c; links_typedb g c; degrees_fitb c; attachedb c Req; attachedb c Rsp]
   else Ok [false].
+
+(* the hypotheses of the hardware-level theorems C02_hw_delivered_nx / C03_hw_delivered_nx / C14_hw_shortest_nx and of
+   C05_model_signals, in the order: names (req, rsp, wide), single attachment, typed links, degrees, attachment to
+   routers (req, rsp), transit (ID) or first hops (SRC) for the given oracle *)
+Definition side_conditions (sp : oracle) (d : desc) : res (list bool) :=
+  do g <- build d; do c <- compile d g;
+  Ok [names_sepb g Req; names_sepb g Rsp; negb (d_nw d) || names_sepb g Wide; single_attachb g c; links_typedb g c; degrees_fitb c;
+      attachedb c Req; attachedb c Rsp;
+      match d_algo d with
+      | ID => transit_allb sp c
+      | SRC => first_hopb sp g c Req && first_hopb sp g c Rsp
+      | XY => true
+      end].
